@@ -9,7 +9,7 @@ import json
 import os
 import re
 
-from .. import cg, core, vt
+from .. import guards, cg, core, vt
 
 WS = {'typeshare_core', 'typeshare', 'typeshare#bin', 'typeshare_annotation'}
 
@@ -222,12 +222,21 @@ def unit_enum_invariant(ctx, prog, rep):
     if not sites or any(not s[0].endswith('parse_enum') for s in sites):
         ok, why = False, f'RustEnum::Unit constructed outside parse_enum: {sites}'
     else:
-        f = ctx.fn('parse_enum', file='parser.rs')
+        f = ctx.fnx('parse_enum', file='parser.rs')
         found = False
         for c in f['calls']:
             if c.get('f', '').replace(' ', '').endswith('RustEnum::Unit'):
                 found = True
-                forms = [all_unit_form(vt.strip(fr['c'])) for fr in c['guard'] if fr.get('k') == 'if' and not fr.get('neg')]
+                forms = []
+                for fr in c['guard']:
+                    if fr.get('k') != 'if':
+                        continue
+                    cond, neg = fr['c'], bool(fr.get('neg'))
+                    red = guards.reduce_tag_test(cond)
+                    if red is not None:
+                        cond, neg = red[0], neg != red[1]
+                    if not neg:
+                        forms.append(all_unit_form(vt.strip(cond)))
                 if 'parsed' in forms:
                     continue
                 if 'raw' in forms:
